@@ -317,7 +317,10 @@ def classify_event(ev: dict[str, Any]) -> list[tuple[str, str]]:
         out.append((f"daemon-unresponsive:{fam}:{classify_probe_text(p.get('barrier_error', ''))}",
                     f"daemon alive but a well-formed status request after '{label}' was not answered: {p.get('barrier_error')!r}"))
         return out
-    # a well-formed status request that failed although the daemon is alive (even if a retry then succeeded)
+    # a well-formed status request that failed although the daemon is alive (even if a retry then succeeded);
+    # a lone watchdog expiry followed by a served retry is not evidence (the parent counts it as inconclusive)
+    if p.get("barrier_failures"):
+        p = dict(p, barrier_failures=[x for x in p["barrier_failures"] if "timed out" not in x])
     disturbed = [x for x in (p.get("barrier_reply_error") and "error reply: " + p["barrier_reply_error"],
                              p.get("barrier_foreign") and f"response to another request (keys {p.get('barrier_keys')})",
                              p.get("barrier_failures") and "connection-level failure: " + "; ".join(p["barrier_failures"])) if x]
